@@ -249,7 +249,7 @@ theorem trunc_decMsgLoop (env : Env) (hE : EnvOk env) :
       match n, hn with
       | n+1, hn =>
       simp only [wtMsg] at h
-      obtain ⟨hlo, hi, ⟨fd, hfd, hwv⟩, hrest⟩ := h
+      obtain ⟨hlo, hi, ⟨fd, hfd, _, hwv⟩, hrest⟩ := h
       simp only [rankFields] at hf
       have h1 : rank v < f := by omega
       have h2 : rankFields fs < f := by omega
